@@ -62,11 +62,16 @@ def parseAct : List String → Option Act
   | _ => none
 
 def describe (s : St) : String :=
-  s!"queue={s.queue} running={s.running} wThrottle={s.wThrottle} committed={s.committed} flag={s.flag} wpc={repr s.wpc} inflight={s.inflight} undecr={s.undecr} handed={s.handed}"
+  s!"gauge={s.qGauge} queue={s.queue} running={s.running} wThrottle={s.wThrottle} committed={s.committed} flag={s.flag} wpc={repr s.wpc} inflight={s.inflight} undecr={s.undecr} handed={s.handed}"
+
+def stepLine (s : St) (ws : List String) : Option St :=
+  match ws with
+  | ["gauge", v] => if s.qGauge = v.toInt?.getD (-999) then some s else none
+  | _ => (parseAct ws).bind (step s)
 
 def run (hdr : List String) (lines : Array String) : String :=
   let c0 := match hdr with | _ :: _ :: _ :: c :: _ => optNat c | _ => none
-  runActs step parseAct describe (init c0) lines
+  runActs (fun s ws => stepLine s ws) (fun ws => some ws) describe (init c0) lines
 end Throttle
 
 namespace Retry
@@ -77,6 +82,7 @@ inductive Line
   | act (a : Act)
   | submitNowF (f : Nat) (effective : Bool)
   | discardF (f : Nat)
+  | gauge (v : Int)
 
 def parsePol : List String → Option (Option Pol)
   | ["none"] => some none
@@ -89,6 +95,7 @@ def parseLine : List String → Option Line
   | ["submit", f] => some (.act (.submit (nat! f)))
   | ["submitNow", f, e] => some (.submitNowF (nat! f) (e = "1"))
   | ["discard", f] => some (.discardF (nat! f))
+  | ["gauge", v] => some (.gauge (v.toInt?.getD (-999)))
   | ["ddone", d, c] => some (.act (.ddone (nat! d) (c = "1")))
   | ["cbCancelled", d] => some (.act (.cbCancelled (nat! d)))
   | "cbPolicy" :: d :: rest => (parsePol rest).map (fun r => .act (.cbPolicy (nat! d) r))
@@ -102,7 +109,7 @@ def parseLine : List String → Option Line
 
 def describe (s : St) : String :=
   let js := s.jobs.map (fun j => s!"(f{j.fut} a{j.attempt} w{j.whenT} d{j.del} stop={j.stop} old={j.old})")
-  s!"now={s.now} jobs={js} delDone={s.delDone} done={s.done} cancelling={s.cancelling.map (·.1)} decs={s.decs.map (·.1)} submits={s.submits}"
+  s!"now={s.now} gauge={s.qGauge} jobs={js} delDone={s.delDone} done={s.done} cancelling={s.cancelling.map (·.1)} decs={s.decs.map (·.1)} submits={s.submits}"
 
 /-- one line; `none` = not enabled -/
 def stepLine (s : St) : Line → Option St
@@ -120,6 +127,7 @@ def stepLine (s : St) : Line → Option St
       match jobOfFut s f with
       | some j => step s (.discard j)
       | none => none
+  | .gauge v => if s.qGauge = v then some s else none
 
 def run (lines : Array String) : String :=
   runActs stepLine parseLine describe init lines
